@@ -125,10 +125,70 @@ def run(ctx):
         'objects exported on one connection are visible on, and removed '
         'from, every other connection of the process')
     reported_properties(ctx)
+    exports_snapshot(ctx)
     ctx.floor('C16.D1', 3)
     ctx.floor('C16.D2', 6)
     ctx.floor('C16.D3', 2)
     ctx.floor('C16.D4', 3)
+
+
+def exports_snapshot(ctx):
+    """A loop over the export table that calls into the exported objects
+    (getInterfaces, getAllProperties -> user property getters) must iterate
+    a snapshot: user code can export or unexport while it is asked, and a
+    live dict view then raises "changed size during iteration" - the call is
+    never answered."""
+    prog = ctx.prog
+    n = 0
+    for fi in prog.all_funcs.values():
+        if fi.cls is None or fi.cls.qualname != H:
+            continue
+        for node in prog._iter_scope(fi.node):
+            if not isinstance(node, ast.For):
+                continue
+            it = node.iter
+            base = it
+            if isinstance(it, ast.Call) and \
+                    isinstance(it.func, ast.Attribute) and \
+                    it.func.attr in ('items', 'values', 'keys') and \
+                    not it.args:
+                base = it.func.value
+            live = isinstance(base, ast.Attribute) and \
+                base.attr == 'exports' and \
+                isinstance(base.value, ast.Name) and base.value.id == 'self'
+            mentions = any(isinstance(x, ast.Attribute) and
+                           x.attr == 'exports' for x in ast.walk(it))
+            if not mentions:
+                continue
+            targets = {x.id for x in ast.walk(node.target)
+                       if isinstance(x, ast.Name)}
+            objs = set(targets)
+            for st in ast.walk(node):
+                if isinstance(st, ast.Assign) and any(
+                        isinstance(x, ast.Attribute) and x.attr == 'exports'
+                        for x in ast.walk(st.value)):
+                    objs.update(t.id for t in st.targets
+                                if isinstance(t, ast.Name))
+            callout = None
+            for sub in ast.walk(ast.Module(body=node.body, type_ignores=[])):
+                if isinstance(sub, ast.Call) and \
+                        isinstance(sub.func, ast.Attribute) and \
+                        isinstance(sub.func.value, ast.Name) and \
+                        sub.func.value.id in objs and \
+                        sub.func.attr not in ('startswith', 'endswith',
+                                              'rstrip', 'split', 'strip'):
+                    callout = ast.unparse(sub)[:50]
+            if callout is None:
+                continue
+            n += 1
+            ctx.ob('C16.D3', fi.qualname, 'snapshot:exports', not live,
+                   'the loop iterates the live export table (%s) while '
+                   'calling into the exported objects (%s): an object whose '
+                   'property getter exports or unexports something makes '
+                   'the dict view raise and the call goes unanswered; '
+                   'iterate sorted(...) / list(...)' % (
+                       ast.unparse(it)[:40], callout))
+    ctx.extra['export_table_loops_with_callouts'] = n
 
 
 def reported_properties(ctx):
@@ -579,7 +639,32 @@ def children_once(ctx, gx):
                         c.func.attr == 'append' and
                         isinstance(c.func.value, ast.Name) and
                         c.func.value.id == name and len(c.args) == 1]
-            if appended and all(a in tested for a in appended):
+            # ... or against a companion SET that receives the same value
+            # in the same block (kept beside the ordered list for the test)
+            companions = {c.func.value.id for st in n.body
+                          for c in ast.walk(st)
+                          if isinstance(c, ast.Call) and
+                          isinstance(c.func, ast.Attribute) and
+                          c.func.attr == 'add' and
+                          isinstance(c.func.value, ast.Name) and
+                          len(c.args) == 1 and
+                          ast.dump(c.args[0]) in appended}
+            # the companion holds nothing else: it is only ever added to here
+            companions = {cn for cn in companions if sum(
+                1 for x in prog._iter_scope(gx.node)
+                if isinstance(x, ast.Call) and
+                isinstance(x.func, ast.Attribute) and
+                isinstance(x.func.value, ast.Name) and
+                x.func.value.id == cn and
+                x.func.attr in ('add', 'update', 'discard', 'remove',
+                                'clear', 'pop')) == 1}
+            tested_c = [ast.dump(c.left) for c in ast.walk(n.test)
+                        if isinstance(c, ast.Compare) and len(c.ops) == 1
+                        and isinstance(c.ops[0], ast.NotIn) and
+                        isinstance(c.comparators[0], ast.Name) and
+                        c.comparators[0].id in companions]
+            if appended and all(a in tested or a in tested_c
+                                for a in appended):
                 ok, how = True, 'append guarded by "not in"'
             elif appended and not ok:
                 how = 'the append is guarded by a test that does not ' \
